@@ -1,0 +1,12 @@
+//go:build verif
+// +build verif
+
+package dosnode
+
+// Verification hooks for the pipeline-termination property (build tag verif): thin exports.
+
+// VerifPipesHandleGrouping is handleGrouping (the caller of pdkg.Grouping: deadline, error
+// handling, the loop that drains the merged error channel).
+func (d *DosNode) VerifPipesHandleGrouping(participants [][]byte, groupID string) {
+	d.handleGrouping(participants, groupID)
+}
